@@ -90,6 +90,9 @@ def _width(c, bits):
 
 
 class _BitsCfg(Contract):
+    sprops = ("C02", "C16")
+    vprops = ("C05", "C16")
+    eprops = ("C03", "C16")
     modules = ("pysnark.runtime", "pysnark.boolean")
 
     def configs(self, tier):
@@ -113,6 +116,7 @@ class _BitsCfg(Contract):
 @register
 class ToBits(_BitsCfg):
     """x.to_bits(n): n boolean wires that recompose to x; rejects x outside [0,2^n)."""
+    sprops = ("C02", "C03", "C16")
     name = "pysnark.runtime:LinComb.to_bits"
 
     def setup(self, c, cfg):
@@ -160,6 +164,8 @@ class ToBits(_BitsCfg):
 
 @register
 class FromBits(Contract):
+    vprops = ("C05", "C16")
+    sprops = ("C02", "C16")
     """LinComb.from_bits(bits): sum_i 2^i * bits[i]; linear, no events."""
     name = "pysnark.runtime:LinComb.from_bits"
 
@@ -232,6 +238,8 @@ class CheckPositive(_BitsCfg):
 
 @register
 class AssertZero(Contract):
+    sprops = ("C03",)
+    vprops = ("C03",)
     name = "pysnark.runtime:LinComb.assert_zero"
 
     def configs(self, tier):
@@ -257,6 +265,8 @@ class AssertZero(Contract):
 
 @register
 class AssertNonzero(Contract):
+    sprops = ("C03",)
+    vprops = ("C03",)
     name = "pysnark.runtime:LinComb.assert_nonzero"
 
     def configs(self, tier):
@@ -285,6 +295,8 @@ class AssertNonzero(Contract):
 @register
 class AssertPositive(_BitsCfg):
     """x.assert_positive(n): 0 <= x < 2^n, enforced at the width requested."""
+    sprops = ("C03", "C16")
+    vprops = ("C03", "C16")
     name = "pysnark.runtime:LinComb.assert_positive"
 
     def setup(self, c, cfg):
@@ -508,6 +520,8 @@ def small(c, *ts):
 
 
 class _AssertCmp(Contract):
+    sprops = ("C03",)
+    vprops = ("C03",)
     """x.assert_<rel>(y): run-time check and in-circuit relation must coincide."""
 
     def configs(self, tier):
@@ -577,6 +591,8 @@ class AssertGe(_AssertCmp):
 
 
 class _AssertEqNe(Contract):
+    sprops = ("C03",)
+    vprops = ("C03",)
     neg = False
 
     def configs(self, tier):
@@ -622,6 +638,8 @@ class AssertNe(_AssertEqNe):
 
 @register
 class AssertRange(Contract):
+    sprops = ("C03",)
+    vprops = ("C03",)
     """x.assert_range(lo, hi): lo <= x < hi, as the run-time check has it."""
     name = "pysnark.runtime:LinComb.assert_range"
 
